@@ -660,7 +660,7 @@ def run_code(ctx):
     reg = sorted((VERIF / 'regress' / 'C01').glob('code-*.json'))
     specs = [json.loads(p.read_text()) for p in reg]
     nreg = len(specs)
-    n = 320 if ctx.tier == 'quick' else 3000
+    n = 320 if ctx.tier == 'quick' else 2000
     g = Gen(ctx.rng)
     if ctx.tier != 'quick':
         exh = list(exhaustive_blocks())
@@ -1345,7 +1345,7 @@ FINDING_KINDS['refuse'] = probe_refuse
 
 
 def run_params(ctx):
-    n = 150 if ctx.tier == 'quick' else 2000
+    n = 150 if ctx.tier == 'quick' else 1500
     specs = [json.loads(p.read_text()) for p in sorted((VERIF / 'regress' / 'C01').glob('params-*.json'))]
     specs += [gen_param_spec(ctx.rng) for _ in range(n)]
     kept, verdicts, infos, refused = run_param_specs(ctx, specs, 'params')
@@ -1375,6 +1375,243 @@ def run_params(ctx):
     }
 
 
+# ====================================================================================================
+# numeric forms of $OMEGA / $SIGMA records (VARIANCE|STANDARD, COVARIANCE|CORRELATION, CHOLESKY, DIAGONAL SD)
+# ====================================================================================================
+SPELL = {'SD': ['SD', 'STANDARD', 'STAN', 'STA', 'S'], 'CORR': ['CORRELATION', 'CORR', 'COR'],
+         'VAR': ['VARIANCE', 'VAR', 'VARI', 'V'], 'COV': ['COVARIANCE', 'COV', 'COVAR'],
+         'CHOL': ['CHOLESKY', 'CHOL', 'CHO'], 'FIX': ['FIX', 'FIXED', 'FIXE']}
+DYADIC_SD = ['0.5', '1', '2', '1.5', '0.25', '3']
+SQUARES = ['0.25', '1', '4', '2.25', '0.0625', '9', '6.25']          # variances whose square root is dyadic
+CORRS = ['0.5', '0.25', '-0.5', '0', '0.125', '-0.25']
+COVS = ['0.1', '0.01', '-0.05', '0.3', '0', '0.125']
+OFORM_TAGS = {81: 'inits returned by OmegaRecord.parse() differ from the model omega_block_parse',
+              82: 'the covariance values read from an $OMEGA/$SIGMA record differ from NONMEM\'s definition of its form '
+                  '(VARIANCE|STANDARD, COVARIANCE|CORRELATION, CHOLESKY)',
+              83: 'initial values of the model\'s OMEGA/SIGMA parameters differ from what OmegaRecord.parse() returned'}
+
+
+def gen_oform_record(rng, rec_name):
+    kind = rng.choice(['block'] * 6 + ['diag'] * 2)
+    if kind == 'diag':
+        items = []
+        for _ in range(rng.choice([1, 2, 3])):
+            sd = rng.random() < 0.5
+            items.append({'v': rng.choice(DYADIC_SD if sd else PNUMS[:8]), 'sd': sd, 'var': (not sd) and rng.random() < 0.3,
+                          'fix': rng.random() < 0.2, 'first': rng.random() < 0.5})
+        return {'rec': rec_name, 'kind': 'diag', 'items': items}
+    n = rng.choice([1, 2, 2, 3, 3])
+    form = rng.choice(['varcov', 'sdcov', 'varcorr', 'sdcorr', 'sdcorr', 'chol'])
+    sd, corr, chol = form in ('sdcov', 'sdcorr'), form in ('varcorr', 'sdcorr'), form == 'chol'
+    # values are chosen so that (a) every result is exactly representable (dyadic standard deviations, variances that
+    # are squares of dyadic numbers under CORRELATION, dyadic correlations and Cholesky factors) and (b) the matrix is
+    # positive definite (diagonally dominant / small correlations / positive Cholesky diagonal): pharmpy silently
+    # replaces a non positive definite initial block by a nearby one when it builds the model
+    vals = []
+    for i in range(n):
+        for j in range(i + 1):
+            if chol:
+                vals.append(rng.choice(['1', '2', '0.5', '1.5']) if i == j else rng.choice(['1', '0.5', '-0.5', '0.25', '0', '-1']))
+            elif i == j:
+                vals.append(rng.choice(['1', '2', '1.5', '3'] if sd else (SQUARES if corr else ['1', '2', '4', '0.5', '1.5'])))
+            elif corr:
+                vals.append(rng.choice(CORRS if n == 2 else ['0.25', '-0.25', '0.125', '0']))
+            else:
+                vals.append(rng.choice(['0.1', '0.01', '-0.05', '0', '0.125'] if not (corr or sd) or True else COVS))
+    wrong = rng.random() < 0.06
+    if wrong:
+        vals = vals[:-1] if rng.random() < 0.5 and len(vals) > 1 else vals + ['0.5']
+    opts = []
+    if chol:
+        opts.append('CHOL')
+    else:
+        if sd:
+            opts.append('SD')
+        elif rng.random() < 0.3:
+            opts.append('VAR')
+        if corr:
+            opts.append('CORR')
+        elif rng.random() < 0.3:
+            opts.append('COV')
+    if rng.random() < 0.2:
+        opts.append('FIX')
+    rng.shuffle(opts)
+    placed = [(o, rng.choice(SPELL[o]), rng.choice(['pre', 'post', 'post', 'trail', 'paren'])) for o in opts]
+    return {'rec': rec_name, 'kind': 'block', 'n': n, 'sd': sd, 'corr': corr, 'chol': chol, 'vals': vals,
+            'opts': placed, 'anchor': rng.randrange(len(vals)), 'sep': False,   # (commas between the values of a BLOCK are refused by omega_record.lark)
+            'blk': rng.choice(['BLOCK', 'BLOCK', 'BLOC', 'BLO'])}
+
+
+def oform_record_text(r):
+    if r['kind'] == 'diag':
+        toks = []
+        for it in r['items']:
+            o = (['SD'] if it['sd'] else (['VAR'] if it['var'] else [])) + (['FIX'] if it['fix'] else [])
+            if not o:
+                toks.append(it['v'])
+            elif it['first']:
+                toks.append('(' + ' '.join(o) + ' ' + it['v'] + ')')
+            else:
+                toks.append('(' + it['v'] + ' ' + ' '.join(o) + ')')
+        return f"${r['rec']} " + ' '.join(toks)
+    pre = [s for (_, s, w) in r['opts'] if w == 'pre']
+    post = [s for (_, s, w) in r['opts'] if w == 'post']
+    trail = [s for (_, s, w) in r['opts'] if w == 'trail']
+    paren = [s for (_, s, w) in r['opts'] if w == 'paren']
+    vals = list(r['vals'])
+    k = r['anchor'] % len(vals)
+    if paren:
+        vals[k] = '(' + vals[k] + ' ' + ' '.join(paren) + ')'
+        if trail:      # `init _roptions` cannot follow a parenthesised init: put the trailing options on another init or in front
+            k2 = (k + 1) % len(vals)
+            if k2 != k:
+                vals[k2] = vals[k2] + ' ' + ' '.join(trail)
+            else:
+                post += trail
+    elif trail:
+        vals[k] = vals[k] + ' ' + ' '.join(trail)
+    sep = ', ' if r['sep'] else ' '
+    return (f"${r['rec']} " + ' '.join(pre) + (' ' if pre else '') + f"{r['blk']}({r['n']}) " + ' '.join(post) + (' ' if post else '')
+            + sep.join(vals))
+
+
+def gen_oform_spec(rng):
+    om = [gen_oform_record(rng, 'OMEGA') for _ in range(rng.choice([1, 2, 3]))]
+    si = [gen_oform_record(rng, 'SIGMA') for _ in range(rng.choice([1, 1, 2]))]
+    return {'records': om + si}
+
+
+def oform_text(spec):
+    return ("$PROBLEM c01\n$INPUT ID TIME DV WGT APGR\n$DATA c01.csv IGNORE=@\n$PRED\nY = THETA(1) + ETA(1) + EPS(1)\n$THETA 1\n"
+            + '\n'.join(oform_record_text(r) for r in spec['records']) + '\n')
+
+
+def ores_term(x):
+    return x if isinstance(x, str) else '(OOk ' + ct.lst([ct.q(v) for v in x]) + ')'
+
+
+def observe_oforms(spec, mutate=None):
+    """One Coq case per BLOCK record / DIAGONAL item: the written values + flags (reference reading of the generated
+    record) and what the real OmegaRecord.parse() returned; plus the parameter inits of the model when it reads."""
+    from pharmpy.model import ModelSyntaxError
+    from pharmpy.model.external.nonmem.nmtran_parser import NMTranParser
+    from pharmpy.modeling import read_model_from_string
+    txt = oform_text(spec)
+    cs = NMTranParser().parse(txt)
+    recs = {'OMEGA': list(cs.get_records('OMEGA')), 'SIGMA': list(cs.get_records('SIGMA'))}
+    par_inits = None
+    try:
+        model = read_model_from_string(txt)
+        par_inits = {'OMEGA': [fq(p.init) for p in model.parameters if p.name.startswith('OMEGA')],
+                     'SIGMA': [fq(p.init) for p in model.parameters if p.name.startswith('SIGMA')]}
+    except Exception:
+        model = None
+    idx = {'OMEGA': 0, 'SIGMA': 0}
+    pos = {'OMEGA': 0, 'SIGMA': 0}
+    terms = []
+    for r in spec['records']:
+        rec = recs[r['rec']][idx[r['rec']]]
+        idx[r['rec']] += 1
+        try:
+            blocks = rec.parse()
+            err = None
+        except ModelSyntaxError:
+            blocks, err = None, 'OSyntaxError'
+        except ValueError:
+            blocks, err = None, 'OInternalError'
+        if r['kind'] == 'diag':
+            for k, it in enumerate(r['items']):
+                obs = err or [fq(blocks[k][1][0])]
+                if mutate and not err:
+                    obs = mutate(obs)
+                par = None
+                if par_inits is not None:
+                    par = par_inits[r['rec']][pos[r['rec']]:pos[r['rec']] + 1]
+                    pos[r['rec']] += 1
+                terms.append(f"(mkOCase true 1%nat {ct.boolean(it['sd'])} false false {ct.lst([ct.q(F(it['v']))])} {ores_term(obs)} "
+                             f"{ct.opt(None if par is None else ct.lst([ct.q(v) for v in par]))})")
+        else:
+            obs = err or [fq(v) for v in blocks[0][1]]
+            if mutate and not err:
+                obs = mutate(obs)
+            par = None
+            if par_inits is not None and not err:
+                par = par_inits[r['rec']][pos[r['rec']]:pos[r['rec']] + len(obs)]
+                pos[r['rec']] += len(obs)
+            terms.append(f"(mkOCase false {ct.nat(r['n'])} {ct.boolean(r['sd'])} {ct.boolean(r['corr'])} {ct.boolean(r['chol'])} "
+                         f"{ct.lst([ct.q(F(v)) for v in r['vals']])} {ores_term(obs)} "
+                         f"{ct.opt(None if par is None else ct.lst([ct.q(v) for v in par]))})")
+    return terms, txt
+
+
+def run_oform_specs(ctx, specs, label, mutate=None):
+    terms, owner, texts, refused = [], [], [], 0
+    for k, spec in enumerate(specs):
+        try:
+            t, txt = observe_oforms(spec, mutate)
+        except Exception as e:      # the record text is refused by the real parser
+            refused += 1
+            ctx.coverage.setdefault('refused_samples', [])
+            if len(ctx.coverage['refused_samples']) < 5:
+                ctx.coverage['refused_samples'].append({'code': oform_text(spec), 'error': f'{type(e).__name__}: {str(e)[:120]}'})
+            continue
+        terms += t
+        owner += [k] * len(t)
+        texts.append(txt)
+    verdicts = ctx.run_cases(label, IMPORTS, 'ocase', terms, 'verdict_oform', shard=200) if terms else []
+    return owner, verdicts, texts, refused
+
+
+def probe_oform(ctx, w, label):
+    owner, verdicts, texts, refused = run_oform_specs(ctx, [w], label)
+    return {t for v in verdicts for t in v}
+
+
+FINDING_KINDS['oform'] = probe_oform
+
+
+def run_oforms(ctx):
+    n = 200 if ctx.tier == 'quick' else 2000
+    specs = [json.loads(p.read_text()) for p in sorted((VERIF / 'regress' / 'C01').glob('oform-*.json'))]
+    specs += [gen_oform_spec(ctx.rng) for _ in range(n)]
+    owner, verdicts, texts, refused = run_oform_specs(ctx, specs, 'oforms')
+    stats = {'ok': 0, 'violation': 0, 'broken': 0, 'inconclusive': 0}
+    seen = set()
+    for k, v in zip(owner, verdicts):
+        v = set(v)
+        if 1081 in v:
+            stats['inconclusive'] += 1
+        elif 82 in v or 83 in v:
+            stats['violation'] += 1
+            if k not in seen:
+                seen.add(k)
+                t = 82 if 82 in v else 83
+                ctx.violation(OFORM_TAGS[t], {'kind': 'oform', 'spec': specs[k], 'control_stream': oform_text(specs[k]), 'tags': sorted(v)})
+        elif 81 in v:
+            stats['broken'] += 1
+            if stats['broken'] <= 3:
+                ctx.broken.append('correspondence C01 omega_block_parse vs OmegaRecord.parse: ' + oform_text(specs[k]).split('$THETA 1\n')[1])
+        else:
+            stats['ok'] += 1
+    cov = ctx.coverage
+    cov['oform_cases'] = len(verdicts)
+    cov['oform_status'] = stats
+    cov['refused_by_reader'] = cov.get('refused_by_reader', 0) + refused
+    cov['evaluations'] += len(verdicts)
+    cov['distinct_nontrivial'] += len(set(texts))
+    blocks = [r for s in specs for r in s['records'] if r['kind'] == 'block']
+    cov.setdefault('input_distribution', {})['oforms'] = {
+        'forms': {f: sum(1 for r in blocks if (r['sd'], r['corr'], r['chol']) == key)
+                  for f, key in (('var_cov', (False, False, False)), ('sd_cov', (True, False, False)), ('var_corr', (False, True, False)),
+                                 ('sd_corr', (True, True, False)), ('cholesky', (False, False, True)))},
+        'sizes': {str(k): sum(1 for r in blocks if r['n'] == k) for k in (1, 2, 3)},
+        'option_positions': {w: sum(1 for r in blocks for o in r['opts'] if o[2] == w) for w in ('pre', 'post', 'trail', 'paren')},
+        'diag_items_sd': sum(1 for s in specs for r in s['records'] if r['kind'] == 'diag' for it in r['items'] if it['sd']),
+        'wrong_number_of_inits': sum(1 for r in blocks if len(r['vals']) != r['n'] * (r['n'] + 1) // 2),
+    }
+    cov['samples'] += [{'control_stream': texts[0], 'tags': verdicts[0]}] if texts else []
+
+
 def run(ctx):
     ctx.build_gate(['C01'])
     ctx.trusted += [
@@ -1402,6 +1639,7 @@ def run(ctx):
     run_streams(ctx)
     run_rates(ctx)
     run_params(ctx)
+    run_oforms(ctx)
     ctx.coverage['rule'] = ('abbreviated code: random programs (<= 14 statements, nesting <= 2, 8 program symbols, '
                             'THETA/ETA/data leaves, intrinsic + protected functions, layout noise) from VERIF_SEED; '
                             'non-trivial = at least 3 statements; distinct by printed text')
@@ -1429,6 +1667,6 @@ def replay(ctx, rep):
     tags = FINDING_KINDS[kind](ctx, rep.get('spec', rep), 'replay')
     if kind == 'stream' and 241 in tags and ctx.open_finding(TRANS56):
         tags = tags - {41}
-    allt = {**TAGS, **ADV_TAGS, **PARAM_TAGS}
+    allt = {**TAGS, **ADV_TAGS, **PARAM_TAGS, **OFORM_TAGS}
     print('tags', sorted(tags), [allt.get(t, t) for t in sorted(tags)])
-    return 1 if any(t in tags for t in (1, 2, 11, 21, 31, 41, 42, 43, 44, 61, 62)) else 0
+    return 1 if any(t in tags for t in (1, 2, 11, 21, 31, 41, 42, 43, 44, 61, 62, 81, 82, 83)) else 0
